@@ -61,6 +61,11 @@ def sink_recv(ghost, data):
     ghost.deliveries = ghost.deliveries + 1
 
 
+def dlc_emit(ghost, event):
+    ghost.opens = ghost.opens + (1 if event == 'open' else 0)
+    ghost.closes = ghost.closes + (1 if event == 'close' else 0)
+
+
 model('ghost:Mux', fields={}, methods={'send_frame': Callback('send_frame', effect=mux_send)})
 model(
     'bumble.rfcomm:DLC',
@@ -78,7 +83,7 @@ model(
         _sink=Opt(Callback('sink', effect=sink_recv)),
         _enqueued_rx_packets=DequeOf(Bytes, maxlen=rfcomm.DEFAULT_RX_QUEUE_SIZE),
     ),
-    methods={'on': Callback('on', effect=lambda ghost, event, listener: None)},
+    methods={'on': Callback('on', effect=lambda ghost, event, listener: None), 'emit': Callback('emit', effect=dlc_emit)},
 )
 DLC = Inst('bumble.rfcomm:DLC')
 TX_GHOST = dict(dlci=Int, c_r=Int, mtu=Int, credits=Int, granted=Int, credit_frames=Int, data_frames=Int, wire=Bytes, frames=Int)
